@@ -243,7 +243,7 @@ example : ¬ validSpec "2" [("sec-websocket-version".b, "13".b), ("sec-websocket
 /-- **invalid handshake ⇒ 400, stream closed, no application** (nothing is put, nothing can be put later) -/
 theorem invalid_400_no_app (maxLen : Nat) (version : String) (hs : Headers) (ping : Bool)
     (h : (Handshake.ofRequest version hs >>= Handshake.isValid) = .ok false) :
-    ∃ s, onRequest maxLen version hs true ping = .ok (s, [], errorResponse 400) ∧ s.closed = true ∧ s.hasAppPut = false := by
+    ∃ s, onRequest maxLen version hs true ping = .ok (s, [], errorResponse 400 ++ [.spawnClose]) ∧ s.closed = true ∧ s.hasAppPut = false := by
   unfold onRequest
   cases ho : Handshake.ofRequest version hs with
   | error e => simp [ho, bind, Except.bind] at h
@@ -269,7 +269,7 @@ theorem upgrade_iff_valid (maxLen : Nat) (version : String) (hs : Headers) (ping
     (hu : version = "1.1" → (lastHeader "upgrade".b hs).isSome = true) :
     ((validSpec version hs ∧ commaHeadersAscii hs) → ∃ s, onRequest maxLen version hs true ping = .ok (s, [.connect], [])) ∧
     (¬ (validSpec version hs ∧ commaHeadersAscii hs) →
-      ∃ s, onRequest maxLen version hs true ping = .ok (s, [], errorResponse 400) ∧ s.closed = true) := by
+      ∃ s, onRequest maxLen version hs true ping = .ok (s, [], errorResponse 400 ++ [.spawnClose]) ∧ s.closed = true) := by
   constructor
   · intro hv
     obtain ⟨s, h, _⟩ := valid_connect_first maxLen version hs ping ((is_valid_iff version hs).mpr hv)
